@@ -542,7 +542,8 @@ func parseRaceLogs(glob string) []raceReport {
 				for _, ln := range strings.Split(stack, "\n") {
 					ln = strings.TrimSpace(ln)
 					if strings.HasPrefix(ln, "github.com/bytemare/secp256k1") && !strings.Contains(ln, "/zz_verif/") {
-						if k := strings.IndexByte(ln, '('); k > 0 {
+						// frame lines look like "pkg.(*T).Method()" or "pkg.Func()": drop the trailing argument list
+						if k := strings.LastIndexByte(ln, '('); k > 0 {
 							last = ln[:k]
 						} else {
 							last = ln
